@@ -29,7 +29,7 @@ RULE = {
     "C10": (
         "Hypothesis-generated cases of three kinds. actor: per successive run (awaits before the outcome 0-3, outcome return / "
         "raise Exception / raise BaseException / block until cancelled, reaction to cancellation propagate / raise Exception / "
-        "await once more then raise / swallow and return), restart limit 0/1/3/None, RESTART_DELAY 0/2 s, and a control "
+        "await once more then raise / await once more then propagate / swallow and return), restart limit 0/1/3/None, RESTART_DELAY 0/2 s, and a control "
         "schedule of start, stop (as a task), cancel, wait (as a task), extra task (finishes / fails / blocks) and clock "
         "advances of 0.5-5 s landing before, inside and after the restart delay. service: a BackgroundService with several "
         "tasks and the same stop/cancel/wait operations. group: run(a, b, ...) over 1-3 terminating actors. Oracle: at most one "
@@ -43,7 +43,8 @@ RULE = {
     )
 }
 ASSUMPTIONS = [
-    "start() issued while a cancellation is still in progress is left open by the statement: the rest of such a case is not judged",
+    "start() issued while a cancellation is still in progress is left open by the statement: for the rest of such a case only "
+    "'the run logic never runs twice concurrently' is judged",
     "tasks spawned during stop() are not asserted",
     "virtual time (async_solipsism): delays elapse exactly",
 ]
@@ -62,7 +63,7 @@ def strategy(tier: str, pid: str = "C10") -> st.SearchStrategy[Any]:
     run_spec = st.tuples(
         st.integers(0, 3),
         st.sampled_from(["return", "return", "raise", "raise", "raise", "raise", "base", "block", "block", "block"]),
-        st.sampled_from(["propagate", "propagate", "raise", "raise", "raise_later", "swallow"]),
+        st.sampled_from(["propagate", "propagate", "raise", "raise", "raise_later", "swallow", "propagate_later"]),
     ).map(list)
     adv = st.tuples(st.just("adv"), st.sampled_from([0.5, 1.0, 1.0, 1.5, 2.0, 2.5, 5.0])).map(list)
     op = st.one_of(
@@ -70,7 +71,17 @@ def strategy(tier: str, pid: str = "C10") -> st.SearchStrategy[Any]:
         st.sampled_from([["start"], ["start"], ["stop"], ["stop"], ["cancel"], ["wait"]]),
         st.sampled_from([["start"], ["stop"], ["cancel"], ["wait"]]),
         st.tuples(st.just("extra"), st.sampled_from(["finish", "fail", "fail", "block"])).map(list),
+        # two lifecycle calls back to back (no clock advance between them; flattened below)
+        st.sampled_from([[["cancel"], ["start"]], [["stop"], ["start"]], [["cancel"], ["start"]], [["start"], ["cancel"]],
+                         [["cancel"], ["wait"]]]),
     )
+
+    def flatten(ops: list[Any]) -> list[Any]:
+        out: list[Any] = []
+        for o in ops:
+            out += o if o and isinstance(o[0], list) else [o]
+        return out
+
     failing = st.tuples(st.integers(0, 2), st.sampled_from(["raise"] * 6 + ["return", "block", "base"]),
                         st.sampled_from(["propagate", "propagate", "raise"])).map(list)
     actor = st.fixed_dictionaries({
@@ -80,7 +91,7 @@ def strategy(tier: str, pid: str = "C10") -> st.SearchStrategy[Any]:
                             st.lists(failing, min_size=3, max_size=nruns + 2)),
         "limit": st.sampled_from([0, 1, 3, 3, None, None]),
         "delay": st.sampled_from([0.0, 2.0, 2.0]),
-        "ops": st.lists(op, min_size=3, max_size=nops).map(lambda ops: [["start"]] + ops),
+        "ops": st.lists(op, min_size=3, max_size=nops).map(lambda ops: [["start"]] + flatten(ops)),
     })
     svc_op = st.sampled_from([["wait"], ["wait"], ["stop"], ["cancel"], ["extra", "fail"], ["extra", "fail"],
                               ["extra", "finish"], ["extra", "block"], ["adv", 0.5], ["adv", 1.0], ["adv", 2.0], ["adv", 5.0]])
@@ -140,6 +151,8 @@ def _make_actor(script: list[list[Any]], limit: int | None, delay: float, trace:
                         raise RuntimeError(f"run {idx}: late cleanup failed")  # pylint: disable=raise-missing-from
                     if on_cancel == "swallow":
                         return
+                    if on_cancel == "propagate_later":
+                        await asyncio.sleep(1.0)   # a flush in the cancellation path, then the cancellation goes on
                     raise
                 if outcome == "raise":
                     raise ValueError(f"run {idx} failed")
@@ -263,6 +276,11 @@ def _judge_actor(case: dict[str, Any], v: Verdict, trace: list[Any], ctl: list[A
     excs = {e[2]: e[3] for e in trace if e[1] == "exc"}
     for t, _, src, kind, payload in events:
         if ambiguous:
+            # whether such a start() takes effect is left open; that the run logic never runs twice at once is not
+            for e in trace:
+                if e[1] == "begin" and e[0] >= t - 1e-9 and e[3] != 1:
+                    v.fail(f"t={e[0]}: _run #{e[2]} began while another _run was still active (after a start() issued "
+                           f"while a cancellation was in progress)")
             break
         if expect_begin is not None and t > expect_begin + 1e-7:
             v.fail(f"no _run began at t={expect_begin} (restart after a failure with restarts left / start())")
